@@ -19,7 +19,7 @@ from pv.gen import expr
 ID = 'C15'
 LEVEL = 'exploration'
 TECHNIQUE = ('metamorphic runtime monitor: parse -> print -> parse on the real parser/printers, decisions compared on a '
-             'spread of credentials/targets; run-wide printed-form -> decision-vector dictionary (injectivity up to meaning)')
+             'spread of credentials/targets; run-wide printed-form -> decision-vector dictionary (injectivity up to meaning); first use of the library by two threads at once, one fresh interpreter per schedule')
 RULE = ('cases = T: expression-generator rules in text form over leaves of every built-in kind (role, rule:, generic '
         'literal and path, http/https with a stub transport, @, !) in several spellings; Ls: the same as list-of-lists '
         'values; S: rule sets of <= 6 rules with always-allow entries ("", "@", []) dumped with str(Rules) and re-loaded, then changed (update / item assignment / merge through an enforcer / deletion) and dumped and re-loaded again; '
